@@ -731,7 +731,33 @@ func (g *c06gen) construct() {
 			// iterate over each element open a second level of iterators
 			c = g.richColl()
 		}
-		g.emit(1, "attempt(lambda: "+t.Expr+")", c.name)
+		if g.r.Chance(1, 2) {
+			// in one frame: the iterating expression (or statement), then at once a
+			// mutation of the same collection — the iteration is over, whatever the
+			// frame still holds
+			fn := g.fresh("use")
+			var b strings.Builder
+			fmt.Fprintf(&b, "def %s(c):\n", fn)
+			switch g.r.Intn(6) {
+			case 0:
+				fmt.Fprintf(&b, "    acc = [0]\n    acc += c\n")
+			case 1:
+				fmt.Fprintf(&b, "    acc = [0]\n    acc.extend(c)\n")
+			case 2:
+				fmt.Fprintf(&b, "    acc = (0,)\n    acc += tuple(c)\n")
+			default:
+				fmt.Fprintf(&b, "    r = "+strings.ReplaceAll(t.Expr, "%%", "%%%%")+"\n", "c", "c")
+			}
+			fmt.Fprintf(&b, "    must_ok(%s, c)\n", g.mut(c))
+			if g.r.Bool() {
+				fmt.Fprintf(&b, "    for q in [1, 2]:\n        acc2 = [q]\n        acc2 += c\n        must_ok(%s, c)\n", g.mut(c))
+			}
+			fmt.Fprintf(&b, "    return 0\n")
+			g.addDef(fn, b.String())
+			g.emit(1, "attempt(%s, %s)", fn, c.name)
+		} else {
+			g.emit(1, "attempt(lambda: "+t.Expr+")", c.name)
+		}
 		g.emit(1, "must_ok(%s, %s)", g.mut(c), c.name)
 		g.tags = append(g.tags, "builtin:"+t.Name)
 	case 10: // built-in with call-back
